@@ -2,7 +2,7 @@ import ApdVerif.Spec.Agrees
 import ApdVerif.Lemmas.Digits
 import Mathlib.Tactic.SplitIfs
 /-!
-# Lemmas for `Props/Mul.lean`: closed forms of `setExponent` / `roundX` and of the oracle on
+# Lemmas for `Props/Mul.lean`: closed forms of `setExponent` / `roundXFin` and of the oracle on
 decimal (`den = 1`) exact values.
 -/
 namespace Apd.MulL
@@ -362,7 +362,7 @@ theorem setExponent_sub_round (h4 : sumInts xs + (ndigits d.coeff : Int) - 1 < c
 
 end SE
 
-/-! ## `roundX` -/
+/-! ## `roundXFin` -/
 
 theorem roundAddOne_spec (y : Nat) (diff : Int) (hy : 0 < y) :
     0 < (roundAddOne y diff).1 ∧ ndigits (roundAddOne y diff).1 = ndigits y ∧
@@ -413,26 +413,26 @@ theorem isZero_of_pos (d : Dec) (h : 0 < d.coeff) : d.isZero = false := by
 
 theorem roundX_sub (c : Ctx) (d : Dec) (hp : c.prec ≠ 0) (hs : d.sign ≠ 0)
     (h : d.exp + (ndigits d.coeff : Int) - 1 < c.emin) :
-    roundX c d true = ((setExponent c d Cond.cSubnormal [d.exp]).1,
+    roundXFin c d true = ((setExponent c d Cond.cSubnormal [d.exp]).1,
       Cond.cSubnormal ||| (setExponent c d Cond.cSubnormal [d.exp]).2) := by
   have hp' : (c.prec == 0) = false := by simpa using hp
   have hs' : (d.sign != 0) = true := by simpa using hs
-  simp only [roundX, hp', hs', h, Bool.and_false, Bool.true_and, decide_true, Bool.false_eq_true, if_false, if_true]
+  simp only [roundXFin, hp', hs', h, Bool.and_false, Bool.true_and, decide_true, Bool.false_eq_true, if_false, if_true]
 
 theorem roundX_le (c : Ctx) (d : Dec) (hp : c.prec ≠ 0)
     (h : ¬ (d.sign ≠ 0 ∧ d.exp + (ndigits d.coeff : Int) - 1 < c.emin))
     (hd : ndigits d.coeff ≤ c.prec) :
-    roundX c d true = setExponent c d {} [d.exp, 0] := by
+    roundXFin c d true = setExponent c d {} [d.exp, 0] := by
   have hp' : (c.prec == 0) = false := by simpa using hp
   have h' : (d.sign != 0 && decide (d.exp + (ndigits d.coeff : Int) - 1 < c.emin)) = false := by
     simpa using h
   have hd' : ¬ ((ndigits d.coeff : Int) - (c.prec : Int) > 0) := by omega
-  simp only [roundX, hp', h', hd', Bool.and_false, Bool.false_eq_true, if_false]
+  simp only [roundXFin, hp', h', hd', Bool.and_false, Bool.false_eq_true, if_false]
 
 theorem roundX_gt (c : Ctx) (d : Dec) (hp : c.prec ≠ 0)
     (h : ¬ (d.sign ≠ 0 ∧ d.exp + (ndigits d.coeff : Int) - 1 < c.emin))
     (hd : c.prec < ndigits d.coeff) (hm : (ndigits d.coeff : Int) - (c.prec : Int) ≤ 100000) :
-    roundX c d true =
+    roundXFin c d true =
       let k := ndigits d.coeff - c.prec
       let res := if d.coeff % 10 ^ k != 0 then Cond.cRounded ||| Cond.cInexact else Cond.cRounded
       let yd := rndPair c.mode d.neg d.coeff k ((ndigits d.coeff : Int) - (c.prec : Int))
@@ -444,7 +444,7 @@ theorem roundX_gt (c : Ctx) (d : Dec) (hp : c.prec ≠ 0)
   have hd' : ((ndigits d.coeff : Int) - (c.prec : Int) > 0) := by omega
   have hm' : ¬ ((ndigits d.coeff : Int) - (c.prec : Int) > 100000) := by omega
   have hk : ((ndigits d.coeff : Int) - (c.prec : Int)).toNat = ndigits d.coeff - c.prec := by omega
-  simp only [roundX, hp', h', hd', hm', hk, MaxExponent, Bool.and_false, Bool.false_eq_true, if_false, if_true,
+  simp only [roundXFin, hp', h', hd', hm', hk, MaxExponent, Bool.and_false, Bool.false_eq_true, if_false, if_true,
     rndPair]
 
 /-- what `Agrees` says, relative to the form `f` of the operand (so that it can also be used for the
@@ -468,9 +468,9 @@ theorem seFinish_eq (d : Dec) (r : Int) (res : Cond) :
 
 theorem roundX_norm_le (c : Ctx) (hc : c.WF) (d : Dec) (hN : 0 < d.coeff)
     (hadj : c.emin ≤ d.exp + (ndigits d.coeff : Int) - 1) (hnd : ndigits d.coeff ≤ c.prec)
-    (hns : NoSys (roundX c d true).2) :
+    (hns : NoSys (roundXFin c d true).2) :
     RoundPost c (specRound c { neg := d.neg, num := d.coeff, den := 1, e10 := d.exp }) d.form
-      (roundX c d true) := by
+      (roundXFin c d true) := by
   have hc' := hc
   obtain ⟨hc1, hc2, hc3, hc4, hc5⟩ := hc'
   rw [roundX_le c d (by omega) (by omega) hnd] at hns ⊢
@@ -494,19 +494,19 @@ theorem roundX_norm_le (c : Ctx) (hc : c.WF) (d : Dec) (hN : 0 < d.coeff)
 
 theorem roundX_diff_sys (c : Ctx) (d : Dec) (hp : c.prec ≠ 0)
     (h : ¬ (d.sign ≠ 0 ∧ d.exp + (ndigits d.coeff : Int) - 1 < c.emin))
-    (hm : (ndigits d.coeff : Int) - (c.prec : Int) > 100000) : ¬ NoSys (roundX c d true).2 := by
+    (hm : (ndigits d.coeff : Int) - (c.prec : Int) > 100000) : ¬ NoSys (roundXFin c d true).2 := by
   have hp' : (c.prec == 0) = false := by simpa using hp
   have h' : (d.sign != 0 && decide (d.exp + (ndigits d.coeff : Int) - 1 < c.emin)) = false := by
     simpa using h
   have hd' : ((ndigits d.coeff : Int) - (c.prec : Int) > 0) := by omega
-  simp only [roundX, hp', h', hd', hm, MaxExponent, Bool.and_false, Bool.false_eq_true, if_false, if_true]
+  simp only [roundXFin, hp', h', hd', hm, MaxExponent, Bool.and_false, Bool.false_eq_true, if_false, if_true]
   simp [NoSys, Cond.cSysOverflow, Cond.cOverflow]
 
 theorem roundX_norm_gt (c : Ctx) (hc : c.WF) (d : Dec) (hN : 0 < d.coeff)
     (hadj : c.emin ≤ d.exp + (ndigits d.coeff : Int) - 1) (hnd : c.prec < ndigits d.coeff)
-    (hns : NoSys (roundX c d true).2) :
+    (hns : NoSys (roundXFin c d true).2) :
     RoundPost c (specRound c { neg := d.neg, num := d.coeff, den := 1, e10 := d.exp }) d.form
-      (roundX c d true) := by
+      (roundXFin c d true) := by
   have hc' := hc
   obtain ⟨hc1, hc2, hc3, hc4, hc5⟩ := hc'
   have hm : (ndigits d.coeff : Int) - (c.prec : Int) ≤ 100000 := by
@@ -549,9 +549,9 @@ theorem roundX_norm_gt (c : Ctx) (hc : c.WF) (d : Dec) (hN : 0 < d.coeff)
       omega
 
 theorem roundX_norm (c : Ctx) (hc : c.WF) (d : Dec) (hN : 0 < d.coeff)
-    (hadj : c.emin ≤ d.exp + (ndigits d.coeff : Int) - 1) (hns : NoSys (roundX c d true).2) :
+    (hadj : c.emin ≤ d.exp + (ndigits d.coeff : Int) - 1) (hns : NoSys (roundXFin c d true).2) :
     RoundPost c (specRound c { neg := d.neg, num := d.coeff, den := 1, e10 := d.exp }) d.form
-      (roundX c d true) := by
+      (roundXFin c d true) := by
   by_cases hnd : ndigits d.coeff ≤ c.prec
   · exact roundX_norm_le c hc d hN hadj hnd hns
   · exact roundX_norm_gt c hc d hN hadj (by omega) hns
@@ -638,18 +638,18 @@ theorem sign_of_zero (d : Dec) (hf : d.form = .finite) (h0 : d.coeff = 0) : d.si
   simp [Dec.sign, hf, h0]
 
 theorem roundX_zero_eq (c : Ctx) (d : Dec) (hp : 1 ≤ c.prec) (hf : d.form = .finite) (h0 : d.coeff = 0) :
-    roundX c d true = setExponent c d {} [d.exp, 0] := by
+    roundXFin c d true = setExponent c d {} [d.exp, 0] := by
   apply roundX_le c d (by omega)
   · rw [sign_of_zero d hf h0]; simp
   · rw [h0, ndigits_zero]; exact hp
 
 theorem roundX_prec0 (c : Ctx) (d : Dec) (hp : c.prec = 0) :
-    roundX c d true = setExponent c d {} [d.exp] := by
-  simp [roundX, hp]
+    roundXFin c d true = setExponent c d {} [d.exp] := by
+  simp [roundXFin, hp]
 
 /-! ## `round` leaves a fitting decimal alone -/
 
-theorem roundX_noSys_exp (c : Ctx) (d : Dec) (hp : c.prec ≠ 0) (hns : NoSys (roundX c d true).2) :
+theorem roundX_noSys_exp (c : Ctx) (d : Dec) (hp : c.prec ≠ 0) (hns : NoSys (roundXFin c d true).2) :
     -100000 ≤ d.exp ∧ d.exp ≤ 100000 := by
   by_cases hs : d.sign ≠ 0 ∧ d.exp + (ndigits d.coeff : Int) - 1 < c.emin
   · rw [roundX_sub c d hp hs.1 hs.2] at hns
@@ -688,7 +688,7 @@ theorem dec_eta (d : Dec) : ({ d with exp := d.exp } : Dec) = d := by cases d; r
 theorem roundX_id (c : Ctx) (hc : c.WF) (d : Dec) (hf : d.form = .finite)
     (hnd : ndigits d.coeff ≤ c.prec) (hlo : c.emin - (c.prec : Int) + 1 ≤ d.exp) (hmin : -100000 ≤ d.exp)
     (hhi : d.exp + (ndigits d.coeff : Int) - 1 ≤ c.emax) :
-    roundX c d true =
+    roundXFin c d true =
       (d, if 0 < d.coeff ∧ d.exp + (ndigits d.coeff : Int) - 1 < c.emin then Cond.cSubnormal else {}) := by
   obtain ⟨hc1, hc2, hc3, hc4, hc5⟩ := hc
   have hp := ndigits_pos d.coeff
